@@ -26,6 +26,7 @@ start=$(date +%s)
 VERIF_REPO=$wt ./check "$prop" --tier "$tier" > "$dst/check_output.txt" 2>&1
 rc=$?
 end=$(date +%s)
+git -C /verif checkout -- evidence/ 2>/dev/null  # the evidence of a mutant run is not evidence about /repo
 echo "exit=$rc wall=$((end-start))s head=$(git -C /repo rev-parse --short HEAD)" >> "$dst/check_output.txt"
 nviol=$(grep -c '^VIOLATION' "$dst/check_output.txt")
 python3 - "$name" "$prop" "$tier" "$rc" "$nviol" <<'EOF'
